@@ -17,7 +17,7 @@ PID = "C06"
 NONE = 99
 
 
-def make_dataset(fp, d, rowcounts, scheme):
+def make_dataset(fp, d, rowcounts, scheme, written_index=None):
     import pandas as pd
     import numpy as np
     n = sum(rowcounts)
@@ -29,8 +29,16 @@ def make_dataset(fp, d, rowcounts, scheme):
                        "t": pd.Series(pd.date_range("2021-03-27 22:00", periods=n, freq="h", tz="Europe/Paris")),
                        "n": pd.array([None if i % 5 == 2 else i * 3 - 4 for i in range(n)], dtype="Int64")})
     offs = [sum(rowcounts[:i]) for i in range(len(rowcounts))]
-    path = os.path.join(d, "ds-" + scheme + ("" if scheme == "hive" else ".parquet"))
-    fp.write(path, df, file_scheme=scheme, row_group_offsets=offs, write_index=False)
+    path = os.path.join(d, "ds-" + scheme + ("-idx" if written_index else "") + ("" if scheme == "hive" else ".parquet"))
+    if written_index:
+        # the same table with column x as its (named) row index: x is stored as a column and announced as the index
+        xs = np.array(df[written_index])
+        xs[[0, -1]] = xs[[-1, 0]]                     # (not an arithmetic progression: pandas would make it a range)
+        df[written_index] = xs
+        fp.write(path, df.set_index(written_index), file_scheme=scheme, row_group_offsets=offs)
+        df.attrs["written_index"] = written_index
+    else:
+        fp.write(path, df, file_scheme=scheme, row_group_offsets=offs, write_index=False)
     return path, df
 
 
@@ -121,7 +129,12 @@ def _run_program(fp, target, path, df, rowcounts, prog, outcome):
     view = outcome["view"]
     rows = [r for g in view for r in range(starts[g - 1], starts[g - 1] + rowcounts[g - 1])]
     cols = list(outcome["cols"]) or list(df.columns)
-    want = df.iloc[rows][cols].reset_index(drop=True)
+    ix = outcome.get("ix", "default")
+    # which column the read must put into the row index: the one asked for, else the one the file records
+    ixcol = ix if ix not in ("default", "false") else (df.attrs.get("written_index") if ix == "default" else None)
+    # (a recorded index comes along even when it is not among the columns asked for)
+    want = df.iloc[rows][cols + ([ixcol] if ixcol is not None and ixcol not in cols else [])].reset_index(drop=True)
+    cols = [c for c in cols if c != ixcol]
     kind = outcome["kind"]
     probs = []
     try:
@@ -134,6 +147,10 @@ def _run_program(fp, target, path, df, rowcounts, prog, outcome):
         if kind == "count":
             return probs
         kw = {"columns": list(outcome["cols"])} if outcome["cols"] else {}
+        if ix == "false":
+            kw["index"] = False
+        elif ix != "default":
+            kw["index"] = ix
         if kind == "to_pandas":
             got = pf.to_pandas(**kw)
         elif kind == "filelike":
@@ -151,13 +168,27 @@ def _run_program(fp, target, path, df, rowcounts, prog, outcome):
             parts = list(pf.iter_row_groups(**kw))
             if [len(p) for p in parts] != [c for c in outcome["per_rg"] if c]:
                 probs.append("iter_row_groups yields frames of other sizes than the row groups")
-            got = pd.concat(parts, ignore_index=True) if parts else want.iloc[0:0]
+            if not parts:
+                got = want.iloc[0:0] if ixcol is None else want.iloc[0:0].set_index(ixcol)[cols]
+            else:
+                got = pd.concat(parts, ignore_index=True) if ixcol is None else pd.concat(parts)
         elif kind == "head":
             got = pf.head(outcome["h"], **kw)
             want = want.iloc[:outcome["h"]]
         else:
             return probs + ["unknown read"]
-        got = got.reset_index(drop=True)
+        if ixcol is not None:
+            if list(got.index.names) != [ixcol]:
+                probs.append("row index is not the column asked for / recorded by the file")
+                return probs
+            if list(got.columns) != cols:
+                probs.append("columns or their order differ")
+                return probs
+            got = got.reset_index()
+            cols = cols + [ixcol]
+            got = got[cols]
+        else:
+            got = got.reset_index(drop=True)
         if list(got.columns) != cols:
             probs.append("columns or their order differ")
         elif len(got) != len(want):
@@ -196,6 +227,7 @@ def replay_chunk(args):
     os.makedirs(d)
     try:
         sets = {s: make_dataset(fp, d, rowcounts, s) for s in ("simple", "hive")}
+        sets["simple_idx"] = make_dataset(fp, d, rowcounts, "simple", written_index="x")
         sets["foreign"] = make_foreign(d, rowcounts)
         for ci, c in enumerate(cases):
             for scheme, (path, df) in sets.items():
@@ -220,6 +252,7 @@ def export(work, tag, **consts):
     cfg = os.path.join(work, "acc-%s.cfg" % tag)
     c = {k: ("<- " + v if isinstance(v, str) else v) for k, v in consts.items()}
     c.setdefault("Sources", "<- SrcPath")
+    c.setdefault("IndexArgs", "<- IdxDefault")
     T.write_cfg(cfg, spec="Spec", constants=c, invariants=["ViewIsSubsequenceOfDataset", "Export"], check_deadlock=False)
     res = T.run_tlc("AccessMC", cfg, work, timeout=3000, coverage=True)
     if not res.completed:
@@ -253,7 +286,11 @@ def _run(ev, work, thorough):
                     Reads="ReadsFour", ColumnSets="ColsFew", Sources="SrcAll", MaxDepth=2)
     ev.add_tlc("Access: root handle opened from a path / an open file object / BytesIO, with earlier reads through the "
                "same handle", r3, programs=len(c3))
-    cases = c1 + c2 + c3
+    c4, r4 = export(work, "d4", RowCounts="RC4", SliceArgs="ArgsTiny", Steps="StepsFew", Derivations="DerivAll",
+                    Reads="ReadsFour", ColumnSets="ColsIdx", IndexArgs="IdxAll", MaxDepth=1)
+    ev.add_tlc("Access: the index= argument (recorded / suppressed / a named column) on datasets written without and with a "
+               "row index", r4, programs=len(c4))
+    cases = c1 + c2 + c3 + c4
     chunks = [cases[i::64] for i in range(64)]
     base = os.path.join(work, "acc")
     os.makedirs(base)
